@@ -285,6 +285,28 @@ def _can_catch_runtime(h):
     return any(n in ("CklRuntimeError", "Exception", "BaseException") for n in names)
 
 
+_ENGINE = {}
+
+
+def _plain_renderings(model, f):
+    """ids of str()/f-string sites in `f` whose operand is known to be a host scalar (no __repr__ of ours runs)."""
+    if "e" not in _ENGINE:
+        _ENGINE["e"] = Engine(model)
+    ip = _ENGINE["e"].interp(f)
+    ok = set()
+    plain = {"str", "int", "float", "bool", "None"}
+    for ev in ip.events:
+        if ev.kind == "format":
+            (v,) = ev.data
+            if known(v) and v.types <= plain:
+                ok.add(id(ev.node))
+        elif ev.kind == "call" and norm(ev.data[0]) in ("str", "repr", "format") and ev.data[1]:
+            v = ev.data[1][0]
+            if known(v) and v.types <= plain:
+                ok.add(id(ev.node))
+    return ok
+
+
 def transparent(ctx, model):
     cg = CallGraph(model, repr_dispatch=True)
     raising = {}      # Func -> has an explicit non-bare raise
@@ -382,6 +404,17 @@ def _always_reraises(h):
 def unwind(ctx, cg, f, h, explicit_raises):
     """Statements of a re-raising handler must not be able to raise a different error."""
     pre = [s for s in h.body if not (isinstance(s, ast.Raise) and s.exc is None)]
+    # a nested try whose handler catches language errors and does not raise shields its body
+    shielded = []
+    for s_ in pre:
+        if isinstance(s_, ast.Try) and not s_.finalbody and any(
+                _can_catch_runtime(hh) and not any(isinstance(x, ast.Raise) for x in ast.walk(hh))
+                for hh in s_.handlers):
+            shielded.extend(hh_stmt for hh in s_.handlers for hh_stmt in hh.body)
+            shielded.extend(s_.orelse)
+        else:
+            shielded.append(s_)
+    pre = shielded
     if not pre:
         ctx.ob("C05.unwind", f"{f.qual}: handler is a bare re-raise", True)
         return
@@ -400,8 +433,20 @@ def unwind(ctx, cg, f, h, explicit_raises):
 
     # program code (execute/evaluate) is not followed, and the search stops at the first offender on a path:
     # a function that raises or runs program code is reported itself, not everything behind it
+    plain_cache = {body_fn: _plain_renderings(ctx.model, f)}
+
+    def skip(g, r):
+        if not (r.kind == "dispatch" and r.target in ("__repr__", "__str__")):
+            return False
+        if g not in plain_cache:
+            try:
+                plain_cache[g] = _plain_renderings(ctx.model, g)
+            except Exception:
+                plain_cache[g] = set()
+        return id(r.node) in plain_cache[g]
+
     seen = cg.reach([body_fn], dispatch_filter=lambda m, c: m not in ("execute", "evaluate"),
-                    stop=lambda g: offence(g) is not None)
+                    stop=lambda g: offence(g) is not None, skip_ref=skip)
     offenders = [(g, offence(g)) for g in seen if offence(g) is not None]
     ctx.ob("C05.unwind", f"{f.qual}: bookkeeping before the re-raise cannot raise ({len(seen)} functions reached)",
            not offenders, ", ".join(g.qual for g, _ in offenders[:5]))
